@@ -825,6 +825,9 @@ INTERNAL_DECL(kdump_status, set_blob_attr,
 INTERNAL_DECL(kdump_status, read_blob_attr,
 	      (kdump_ctx_t *ctx, unsigned fidx, off_t off, size_t size,
 	       enum global_keyidx attr, const char *desc));
+INTERNAL_DECL(kdump_status, check_file_extent,
+	      (kdump_ctx_t *ctx, unsigned fidx, off_t off, uint64_t size,
+	       const char *desc));
 
 INTERNAL_DECL(kdump_status, read_current_vmcoreinfo,
 	      (kdump_ctx_t *ctx));
